@@ -155,7 +155,7 @@ func describeCase(tc tcase) (x any, desc string, f features, ok bool) {
 }
 
 func comparable_(f features) bool {
-	return !f.envelope && !f.errorValue && !f.subSecond && !f.yearRange && !f.keyNotStd && !f.other &&
+	return !f.envelope && !f.errorValue && !f.yearRange && !f.keyNotStd && !f.other &&
 		!f.badTagName && !f.dupNames && !f.dupKeys && !f.unsafeAny
 }
 
@@ -190,6 +190,15 @@ func evaluate(tc tcase) (e evaluated, ok bool) {
 		got, err = decodeJSON([]byte(e.o.out))
 		if err != nil {
 			e.clause, e.detail = "json-output-is-valid-json", err.Error()
+			return
+		}
+	}
+	if t, isTime := e.x.(time.Time); isTime && js && got.kind == "date" && t.Year() >= 0 && t.Year() <= 9999 {
+		// the Date constructor's argument must denote the instant of the value (to the millisecond)
+		p, err := time.Parse("2006-01-02T15:04:05.000Z07:00", got.s)
+		if err != nil || !p.Equal(t.Truncate(time.Millisecond)) {
+			e.clause = "js-date-denotes-the-same-instant"
+			e.detail = fmt.Sprintf("value %s, Date argument %q parsed as %v (%v)", t.Format(time.RFC3339Nano), got.s, p, err)
 			return
 		}
 	}
@@ -234,6 +243,9 @@ var classFinding = map[string]string{
 	"embedded":   "embedded-struct-not-flattened",
 	"omitzero":   "json-omitzero-option-ignored",
 	"namedbytes": "named-byte-slice-shown-as-array",
+	"subsecond":  "json-time-fraction-dropped",
+	"offsetsec":  "js-date-offset-seconds-dropped",
+	"utcnamed":   "js-date-zone-named-utc-shown-as-z",
 }
 
 func hasClass(f features, class string) bool {
@@ -252,6 +264,12 @@ func hasClass(f features, class string) bool {
 		return f.omitzero
 	case "namedbytes":
 		return f.namedBytes
+	case "subsecond":
+		return f.subSecond
+	case "offsetsec":
+		return f.offsetSeconds
+	case "utcnamed":
+		return f.utcNamed
 	}
 	return false
 }
@@ -433,6 +451,14 @@ func run(c *hx.Ctx) error {
 			for _, ctx := range []string{"tjs", "tjson", "tscript", "tldjson"} {
 				cases = append(cases, tcase{ctx: ctx, v: v})
 			}
+		}
+	}
+
+	for i := 0; i < c.N(300, 5000); i++ { // times on their own: the instant oracle looks at top-level times
+		v := &val{Dyn: timeType, Elems: []*val{g.value(timeType, 1)}}
+		cases = append(cases, tcase{ctx: "js", v: v}, tcase{ctx: "json", v: v})
+		if i%4 == 0 {
+			cases = append(cases, tcase{ctx: "tscript", v: v})
 		}
 	}
 
@@ -703,6 +729,84 @@ func specChecks(c *hx.Ctx, g *gen) error {
 		}
 		res.Hist("parseTagValue-compared")
 	}
+	// c2. Spec/DateTime.lean against time.Parse
+	{
+		var dl []string
+		var ds []string
+		for i := 0; i < c.N(1500, 20000); i++ {
+			t := g.time()
+			var s string
+			switch c.R.Intn(4) {
+			case 0:
+				s = t.Format("2006-01-02T15:04:05.000Z07:00")
+			case 1:
+				s = t.Format(time.RFC3339)
+			case 2:
+				s = fmt.Sprintf("%+07d", t.Year()*(1-2*c.R.Intn(2))) + t.Format("-01-02T15:04:05.000Z07:00")
+			default:
+				s = t.Format("2006-01-02T15:04:05.000Z07:00")
+			}
+			if c.R.Intn(3) == 0 && len(s) > 0 { // damage it
+				b := []byte(s)
+				j := c.R.Intn(len(b))
+				switch c.R.Intn(3) {
+				case 0:
+					b[j] = "0123456789-+:.TZ x"[c.R.Intn(18)]
+				case 1:
+					b = append(b[:j], b[j+1:]...)
+				default:
+					b = append(b[:j], append([]byte{"0123456789-+:.TZ"[c.R.Intn(16)]}, b[j:]...)...)
+				}
+				s = string(b)
+			}
+			ds = append(ds, s)
+			dl = append(dl, "C08 parsedate ecma "+hexs(s), "C08 parsedate rfc3339 "+hexs(s))
+		}
+		ans, err := c.D.Batch(dl)
+		if err != nil {
+			return err
+		}
+		fields := func(t time.Time, ms bool) string {
+			_, off := t.Zone()
+			m := 0
+			if ms {
+				m = t.Nanosecond() / 1000000
+			}
+			return fmt.Sprintf("ok %d %d %d %d %d %d %d %d", t.Year(), int(t.Month()), t.Day(), t.Hour(), t.Minute(), t.Second(), m, off/60)
+		}
+		for i, s := range ds {
+			// ECMA-262: 4-digit years with milliseconds and offset (Go's layout accepts exactly that form
+			// when the fraction has 3 digits and the offset is Z or ±hh:mm); expanded years: compared by hand
+			want := "err invalid"
+			if t, err := time.Parse("2006-01-02T15:04:05.000Z07:00", s); err == nil && len(s) >= 24 && s[19] == '.' && (len(s) == 24 || len(s) == 29) && t.Year() <= 9999 {
+				want = fields(t, true)
+			} else if len(s) > 7 && (s[0] == '+' || s[0] == '-') {
+				if y, err := strconv.Atoi(s[1:7]); err == nil && !strings.ContainsAny(s[1:7], "+-") && !(s[0] == '-' && y == 0) {
+					if t, err := time.Parse("2006-01-02T15:04:05.000Z07:00", "2000"+s[7:]); err == nil && (len(s) == 27 || len(s) == 32) {
+						if s[0] == '-' {
+							y = -y
+						}
+						want = strings.Replace(fields(t, true), "ok 2000 ", fmt.Sprintf("ok %d ", y), 1)
+						if t.Month() == 2 && t.Day() == 29 {
+							want = ans[2*i] // leap day of another year: not compared
+						}
+					}
+				}
+			}
+			if ans[2*i] != want {
+				res.AddBreak(proto.Break{Kind: "correspondence", Name: "Spec/DateTime.lean(ecma)-vs-time.Parse", Case: dl[2*i], Human: strconv.Quote(s), Impl: want, Model: ans[2*i]})
+			}
+			res.SpecChecks["lean-ecma-date-parser-vs-time.Parse"]++
+			want = "err invalid"
+			if t, err := time.Parse(time.RFC3339, s); err == nil && (len(s) == 20 || len(s) == 25) && s[19] != '.' && s[19] != ',' {
+				want = fields(t, false)
+			}
+			if ans[2*i+1] != want {
+				res.AddBreak(proto.Break{Kind: "correspondence", Name: "Spec/DateTime.lean(rfc3339)-vs-time.Parse", Case: dl[2*i+1], Human: strconv.Quote(s), Impl: want, Model: ans[2*i+1]})
+			}
+			res.SpecChecks["lean-rfc3339-parser-vs-time.Parse"]++
+		}
+	}
 	// d. absStd against json.Marshal
 	var als []string
 	var stds []*data
@@ -715,7 +819,7 @@ func specChecks(c *hx.Ctx, g *gen) error {
 		}
 		tc := tcase{ctx: "json", v: &val{Dyn: t, Elems: []*val{g.value(t, depth+1)}}}
 		x, desc, f, ok := describeCase(tc)
-		if !ok || !comparable_(f) || f.embedded || f.omitzero || f.namedBytes || f.nonFinite || f.stringOptUnmodelled {
+		if !ok || !comparable_(f) || f.nonFinite || f.stringOptUnmodelled {
 			continue
 		}
 		m, err := marshalStd(x)
